@@ -1,4 +1,215 @@
-"""E8 placeholder (filled in later)."""
-def run(prop, root, jobs=16):
-    return {"mutants": 0, "mutants_detected": 0, "twins": 0, "twins_silent": 0,
-            "positive_examples": 0, "positive_examples_ok": 0, "failures": [], "details": []}
+"""E8 -- the checkers are tested both ways on scratch copies.
+
+* mutants: one rule instance broken (release deleted, check dropped, writer
+  added in the wrong place, operator flipped ...); the variant still parses;
+  the check must fire and the report must name the expected rule;
+* benign twins: behaviour-preserving edits (re-formatting through
+  ast.unparse, shifted line numbers, renamed locals, hoisted tests,
+  equivalent operator spellings, reordered independent phases); the check
+  must stay silent (no violation, no analysis error).
+
+Scratch copies live under ``mktemp -d`` (outside /repo and /verif) and are
+removed as soon as the variant has been evaluated.  Recipes are exact-once
+text edits; a recipe that no longer applies to the tree under analysis is
+reported as *stale* and does not influence the exit code.
+"""
+from __future__ import annotations
+
+import ast
+import os
+import shutil
+import tempfile
+import traceback
+from concurrent.futures import ProcessPoolExecutor
+from dataclasses import dataclass, field
+from pathlib import Path
+from typing import Any, Callable, Optional
+
+from .core import AnalysisError, PACKAGE
+
+
+@dataclass
+class Variant:
+    prop: str
+    vid: str
+    kind: str                       # mutant | twin
+    desc: str
+    edits: list[tuple[str, str, str]] = field(default_factory=list)
+    expect: frozenset[str] = frozenset()
+    transform: Optional[str] = None  # name of a whole-tree transform
+
+
+VARIANTS: list[Variant] = []
+
+
+def M(prop: str, vid: str, file: str, old: str, new: str, expect: str,
+      desc: str) -> None:
+    VARIANTS.append(Variant(prop, vid, "mutant", desc, [(file, old, new)],
+                            frozenset(expect.split())))
+
+
+def MM(prop: str, vid: str, edits: list[tuple[str, str, str]], expect: str,
+       desc: str) -> None:
+    VARIANTS.append(Variant(prop, vid, "mutant", desc, edits,
+                            frozenset(expect.split())))
+
+
+def T(prop: str, vid: str, file: str, old: str, new: str, desc: str) -> None:
+    VARIANTS.append(Variant(prop, vid, "twin", desc, [(file, old, new)]))
+
+
+def TT(prop: str, vid: str, edits: list[tuple[str, str, str]], desc: str
+       ) -> None:
+    VARIANTS.append(Variant(prop, vid, "twin", desc, edits))
+
+
+ALL_PROPS = ["C01", "C04", "C05", "C07", "C08", "C09", "C10", "C11", "C12",
+             "C13", "C14", "C15", "C16"]
+
+
+def _load_recipes() -> None:
+    if VARIANTS:
+        return
+    from . import recipes  # noqa: F401  (registers through M/T)
+    for p in ALL_PROPS:
+        VARIANTS.append(Variant(p, "twin-unparse", "twin",
+                                "every module re-formatted through "
+                                "ast.unparse (comments dropped, layout "
+                                "changed)", transform="unparse"))
+        VARIANTS.append(Variant(p, "twin-shift", "twin",
+                                "three comment lines prepended to every "
+                                "module (all line numbers shift)",
+                                transform="shift"))
+
+
+# --------------------------------------------------------------------------
+
+def _apply(v: Variant, scratch: Path) -> Optional[str]:
+    """Returns None when applied, else the reason it is stale."""
+    pkg = scratch / PACKAGE
+    if v.transform == "unparse":
+        for f in pkg.rglob("*.py"):
+            f.write_text(ast.unparse(ast.parse(f.read_text())) + "\n")
+        return None
+    if v.transform == "shift":
+        for f in pkg.rglob("*.py"):
+            f.write_text("# shifted\n# shifted\n# shifted\n" + f.read_text())
+        return None
+    for rel, old, new in v.edits:
+        hits = [f for f in pkg.rglob("*.py") if str(f).endswith(rel)]
+        if len(hits) != 1:
+            return f"file '{rel}' resolves to {len(hits)} files"
+        src = hits[0].read_text()
+        if old.startswith("@all:"):
+            old = old[5:]
+            if src.count(old) < 1:
+                return f"anchor text absent in {rel}: {old[:50]!r}"
+            hits[0].write_text(src.replace(old, new))
+            continue
+        if src.count(old) != 1:
+            return (f"anchor text occurs {src.count(old)} time(s) in {rel}: "
+                    f"{old[:50]!r}")
+        out = src.replace(old, new)
+        try:
+            ast.parse(out)
+        except SyntaxError as exc:
+            return f"edited file does not parse: {exc}"
+        hits[0].write_text(out)
+    return None
+
+
+def _evaluate_variant(args: tuple[Variant, str]) -> dict[str, Any]:
+    v, root = args
+    scratch = Path(tempfile.mkdtemp(prefix="sa_selftest_"))
+    try:
+        shutil.copytree(Path(root) / PACKAGE, scratch / PACKAGE,
+                        ignore=shutil.ignore_patterns("__pycache__"))
+        for extra in ("end-to-end-pumls", "puml_files", "docs"):
+            src = Path(root) / extra
+            if src.exists():
+                os.symlink(src, scratch / extra)
+        stale = _apply(v, scratch)
+        if stale is not None:
+            return {"id": v.vid, "kind": v.kind, "status": "stale",
+                    "detail": stale, "desc": v.desc}
+        from .main import run_rules
+        try:
+            rep, _ = run_rules(v.prop, scratch)
+            fired = sorted({o.rule for o in rep.violations})
+            named = [f"{o.rule} [{o.instance}] {o.func.split(':')[-1]}"
+                     for o in rep.violations][:4]
+            err = None
+        except AnalysisError as exc:
+            fired, named, err = [], [], str(exc)
+        if v.kind == "mutant":
+            hit = bool(set(fired) & v.expect)
+            status = "detected" if hit else (
+                "analysis-error" if err else "MISSED")
+        else:
+            status = "silent" if not fired and not err else "ALARM"
+        return {"id": v.vid, "kind": v.kind, "status": status,
+                "fired": fired, "expected": sorted(v.expect),
+                "reports": named, "error": err, "desc": v.desc}
+    except Exception:
+        return {"id": v.vid, "kind": v.kind, "status": "CRASH",
+                "detail": traceback.format_exc()[-600:], "desc": v.desc}
+    finally:
+        shutil.rmtree(scratch, ignore_errors=True)
+
+
+def run(prop: str, root: Path, jobs: int = 16) -> dict[str, Any]:
+    _load_recipes()
+    mine = [v for v in VARIANTS if v.prop == prop]
+    results: list[dict[str, Any]] = []
+    if mine:
+        with ProcessPoolExecutor(max_workers=min(jobs, len(mine))) as ex:
+            results = list(ex.map(_evaluate_variant,
+                                  [(v, str(root)) for v in mine]))
+    muts = [r for r in results if r["kind"] == "mutant"
+            and r["status"] != "stale"]
+    twins = [r for r in results if r["kind"] == "twin"
+             and r["status"] != "stale"]
+    failures = []
+    for r in results:
+        if r["status"] in ("MISSED", "ALARM", "CRASH", "analysis-error"):
+            failures.append(
+                f"{prop} {r['kind']} {r['id']}: {r['status']} -- {r['desc']}"
+                f" (fired {r.get('fired')}, expected {r.get('expected')}"
+                f"{', error ' + str(r.get('error')) if r.get('error') else ''}"
+                f"{r.get('detail', '')})")
+    return {
+        "mutants": len(muts),
+        "mutants_detected": sum(1 for r in muts if r["status"] == "detected"),
+        "twins": len(twins),
+        "twins_silent": sum(1 for r in twins if r["status"] == "silent"),
+        "stale_recipes": [r["id"] for r in results if r["status"] == "stale"],
+        "positive_examples": len(muts),
+        "positive_examples_ok": sum(1 for r in muts
+                                    if r["status"] == "detected"),
+        "failures": failures,
+        "details": results,
+    }
+
+
+def main() -> int:
+    """``python -m sa.selftest [PROP ...]`` -- run and print a table."""
+    import sys
+    if __name__ == "__main__":       # recipes register on the real module
+        from sa import selftest as real
+        return real.main()
+    from .core import DEFAULT_ROOT
+    props = [p.upper() for p in sys.argv[1:]] or ALL_PROPS
+    rc = 0
+    for p in props:
+        res = run(p, DEFAULT_ROOT)
+        print(f"{p}: {res['mutants_detected']}/{res['mutants']} mutants "
+              f"detected, {res['twins_silent']}/{res['twins']} twins silent, "
+              f"stale {res['stale_recipes']}")
+        for f in res["failures"]:
+            rc = 1
+            print("   FAIL", f[:400])
+    return rc
+
+
+if __name__ == "__main__":
+    raise SystemExit(main())
